@@ -109,6 +109,9 @@ var c15ExtraSDL = []string{
 	"type Query { a: Int }",
 	"schema { query: Q } type Q { a: Int b(x: [Int!] = [1]): [String!]! }",
 	"schema { query: Q mutation: M subscription: S } type Q { a: Int } type M { m(x: Int! = 4): Int! } type S { s: Int }",
+	// only one root renamed: the others keep their default names next to an explicit schema block
+	"schema { query: RootQuery mutation: Mutation } type RootQuery { a: Int } type Mutation { m(x: Int): Int }",
+	"schema { query: Query mutation: Mutation subscription: Events } type Query { a: Int } type Mutation { m: Int } type Events { e: Int }",
 	"type Query { deep: [[[Int!]!]!]! deeper(a: [[[[Int]]]]): [[[[String]]]] }",
 	"type Query { f(a: Float = 1.5, b: Float = -2, c: Int = -3, d: String = \"\", e: String = \"q\\\"uo\\\\te\\nnl \\u00e9\", g: Boolean = false, h: ID = 5, i: ID = \"x\"): Int }",
 	"enum E { A B } input I { e: E = B l: [E!] = [A, B] n: I o: [I] = [{e: A}] } type Query { f(i: I = {e: A, l: [B]}, es: [E] = [A, null]): E }",
@@ -190,7 +193,7 @@ func init() {
 		ID:    "C15",
 		Level: "exploration",
 		Rule: "case = one service schema: every service SDL of every world (base + <=3 (thorough 4) atoms of the 45-atom catalogue incl. wrapper shapes, defaults of every literal kind, descriptions, deprecations, directive definitions, " +
-			"interface chains, unions, enums, inputs, custom scalars) plus 12 hand-written corner schemas (renamed roots, 4-deep wrappers, escapes in string defaults, every directive location, repeatable directives); " +
+			"interface chains, unions, enums, inputs, custom scalars) plus 14 hand-written corner schemas (renamed roots, one root renamed next to default-named ones, 4-deep wrappers, escapes in string defaults, every directive location, repeatable directives); " +
 			"path: the real ParallelRemoteSchemaIntrospector over a spec-shaped responder (gqlref.Introspect, through JSON); oracle: canonical facts (incl. descriptions and deprecations) of the reconstruction == those of the source, " +
 			"an error is allowed only if a standard client (FromIntrospection) cannot rebuild the schema either; operations (<=2 fields) have the same validity on both; non-trivial = every case",
 		Assumptions: []string{"gqlref.IntrospectResolver is the spec-compliant responder", "applied directives other than @deprecated are not transported by introspection and are excluded"},
